@@ -1,5 +1,6 @@
 import TextxVerif.Proofs.Resolve
 import TextxVerif.Proofs.ResolveAttrs
+import TextxVerif.Proofs.ResolveQuery
 /-!
 # C09 — postponed resolution reaches the right fixpoint and terminates
 
@@ -19,8 +20,16 @@ target); `attrAfter L seq` is its content after the loop resolved `seq`
 (`resolve_one_step` inserts at the `bisect` index of the position, one position
 list per object and attribute).
 
+Providers that *ask the resolver* (`textx.scoping.tools.needs_to_be_resolved`,
+`ReferenceResolver.has_unresolved_crossrefs`) instead of looking at attribute
+values do not see the resolved set itself but the `parser._crossrefs` lists,
+which are replaced at the end of a pass only and answer per object and attribute:
+`loopQ` (TextxVerif/ResolveQuery.lean) models that, `Wait` is one condition of a
+provider, `specP W fs0` what the conditions mean as a function of the resolved
+set.  The `C09_query_*` theorems are the property for these providers.
+
 Only property theorems and non-vacuity examples live here; lemmas are in
-`Proofs/Resolve.lean` and `Proofs/ResolveAttrs.lean`.
+`Proofs/Resolve.lean`, `Proofs/ResolveAttrs.lean` and `Proofs/ResolveQuery.lean`.
 -/
 namespace Resolve
 
@@ -140,6 +149,133 @@ theorem C09_list_order_indep (P : Provider) (refs refs' : List Ref) (hperm : ref
     exact ⟨Derivable.congr P _ _ (fun y hy => hperm.symm.subset hy) l.id,
            Derivable.congr P _ _ (fun y hy => hperm.subset hy) l.id⟩
   cases h1 : k' l <;> cases h2 : k l <;> simp_all
+
+/-! ## providers that ask the resolver whether a reference is resolved
+
+`fs0` = the `parser._crossrefs` lists of the model files as parsed (round-robin order),
+`W r` = the conditions of the provider of reference `r` (`Wait.val`: an attribute holds its
+target; `Wait.qry`: `needs_to_be_resolved(obj, attr)` is false), for all `W`, all files. -/
+
+/-- **Termination.** Stale answers of the resolver never keep the loop running: it leaves
+by its own test within `|refs| + 1` rounds (any two fuel values above give the same result). -/
+theorem C09_query_terminates (W : Ref → List Wait) (fs0 : List (List CRef)) (n m : Nat)
+    (hn : pendingCount fs0 < n) (hm : pendingCount fs0 < m) :
+    loopQ W n fs0 [] = loopQ W m fs0 [] := by
+  rcases Nat.le_total n m with h | h
+  · exact (loopQ_fuel W fs0 [] n m hn h).symm
+  · exact loopQ_fuel W fs0 [] m n hm h
+
+/-- …and it does not stop early either: at the exit nothing is pending, or no pending
+reference is ready *by the meaning of its conditions* in the final resolved set (the
+answers of the resolver are up to date when a round resolved nothing). -/
+theorem C09_query_fixpoint (W : Ref → List Wait) (fs0 : List (List CRef)) (hnd : (idsOf fs0).Nodup)
+    (n : Nat) (hn : pendingCount fs0 < n) :
+    pendingCount (loopQ W n fs0 []).1 = 0 ∨
+      ∀ c, c ∈ (loopQ W n fs0 []).1.flatten →
+        (specP W fs0).ready (loopQ W n fs0 []).2 c.id = false :=
+  (loopQ_start W fs0 hnd n hn).2.2.2
+
+/-- **Least fixpoint.** The resolved references are exactly those that some resolution
+order resolves, although every provider only sees the pending lists of the last pass. -/
+theorem C09_query_lfp (W : Ref → List Wait) (fs0 : List (List CRef)) (hnd : (idsOf fs0).Nodup)
+    (n : Nat) (hn : pendingCount fs0 < n) (x : Ref) :
+    x ∈ (loopQ W n fs0 []).2 ↔ Derivable (specP W fs0) (idsOf fs0) x :=
+  loopQ_lfp W fs0 hnd n hn x
+
+/-- **Error exactness.** The references left pending (named by the error) are exactly the
+references no resolution order resolves. -/
+theorem C09_query_error_exact (W : Ref → List Wait) (fs0 : List (List CRef))
+    (hnd : (idsOf fs0).Nodup) (n : Nat) (hn : pendingCount fs0 < n) (x : Ref) :
+    x ∈ idsOf (loopQ W n fs0 []).1 ↔
+      (x ∈ idsOf fs0 ∧ ¬ Derivable (specP W fs0) (idsOf fs0) x) :=
+  loopQ_pending W fs0 hnd n hn x
+
+/-- **Success criterion.** Nothing stays pending exactly when every reference is derivable. -/
+theorem C09_query_success_iff (W : Ref → List Wait) (fs0 : List (List CRef))
+    (hnd : (idsOf fs0).Nodup) (n : Nat) (hn : pendingCount fs0 < n) :
+    pendingCount (loopQ W n fs0 []).1 = 0 ↔
+      ∀ x, x ∈ idsOf fs0 → Derivable (specP W fs0) (idsOf fs0) x := by
+  constructor
+  · intro h x hx
+    apply Classical.byContradiction
+    intro hnd'
+    have hp := (C09_query_error_exact W fs0 hnd n hn x).2 ⟨hx, hnd'⟩
+    rw [pendingCount_eq_ids] at h
+    rw [List.eq_nil_of_length_eq_zero h] at hp
+    simp at hp
+  · intro h
+    rw [pendingCount_eq_ids]
+    cases hp : idsOf (loopQ W n fs0 []).1 with
+    | nil => rfl
+    | cons y ys =>
+      have hy : y ∈ idsOf (loopQ W n fs0 []).1 := by simp [hp]
+      have := (C09_query_error_exact W fs0 hnd n hn y).1 hy
+      exact absurd (h y this.1) this.2
+
+/-- **Same result as with providers that look at the model.** Asking the resolver changes
+the rounds in which references resolve, not which references resolve: the outcome is the
+one of the loop whose providers see every resolved reference at once. -/
+theorem C09_query_same_result (W : Ref → List Wait) (fs0 : List (List CRef))
+    (hnd : (idsOf fs0).Nodup) (n : Nat) (hn : pendingCount fs0 < n) (x : Ref) :
+    x ∈ (loopQ W n fs0 []).2 ↔ x ∈ (loop (specP W fs0) n (idsOf fs0) []).2 := by
+  rw [C09_query_lfp W fs0 hnd n hn, C09_lfp (specP W fs0) (idsOf fs0) n (by rw [← pendingCount_eq_ids]; exact hn)]
+
+/-- **Order independence.** Another distribution of the references over files, another file
+order or another order within the files resolves the same set, provided the same
+references exist and the conditions mean the same. -/
+theorem C09_query_order_indep (W W' : Ref → List Wait) (fs0 fs0' : List (List CRef))
+    (hnd : (idsOf fs0).Nodup) (hnd' : (idsOf fs0').Nodup)
+    (hids : ∀ x, x ∈ idsOf fs0 ↔ x ∈ idsOf fs0')
+    (hsame : ∀ S r, (specP W fs0).ready S r = (specP W' fs0').ready S r)
+    (n : Nat) (hn : pendingCount fs0 < n) (hn' : pendingCount fs0' < n) (x : Ref) :
+    x ∈ (loopQ W' n fs0' []).2 ↔ x ∈ (loopQ W n fs0 []).2 := by
+  rw [C09_query_lfp W fs0 hnd n hn, C09_query_lfp W' fs0' hnd' n hn']
+  exact ⟨Derivable.congr_provider _ _ _ _ (fun y hy => (hids y).2 hy) (fun S r h => by rw [hsame]; exact h) x,
+         Derivable.congr_provider _ _ _ _ (fun y hy => (hids y).1 hy) (fun S r h => by rw [← hsame]; exact h) x⟩
+
+/-- **Result of list-valued references.** As `C09_list_result`: a list attribute ends up
+with its derivable references in the order they are written. -/
+theorem C09_query_list_result (W : Ref → List Wait) (fs0 : List (List CRef))
+    (hnd : (idsOf fs0).Nodup) (n : Nat) (hn : pendingCount fs0 < n) (L : List LRef)
+    (hpos : L.Pairwise (fun a b => a.pos < b.pos)) (hid : L.Pairwise (fun a b => a.id ≠ b.id)) :
+    ∃ keep : LRef → Bool, (∀ l, keep l = true ↔ Derivable (specP W fs0) (idsOf fs0) l.id) ∧
+      attrAfter L (loopQ W n fs0 []).2.reverse = L.filter keep := by
+  refine ⟨fun l => decide (l.id ∈ (loopQ W n fs0 []).2), ?_, ?_⟩
+  · intro l
+    simp only [decide_eq_true_eq]
+    exact C09_query_lfp W fs0 hnd n hn l.id
+  · exact attrAfter_eq_filter L hpos hid _ (loopQ_start W fs0 hnd n hn).2.1
+
+/-- …and on success it is exactly its references in textual order. -/
+theorem C09_query_list_success (W : Ref → List Wait) (fs0 : List (List CRef))
+    (hnd : (idsOf fs0).Nodup) (n : Nat) (hn : pendingCount fs0 < n) (L : List LRef)
+    (hpos : L.Pairwise (fun a b => a.pos < b.pos)) (hid : L.Pairwise (fun a b => a.id ≠ b.id))
+    (hsub : ∀ l, l ∈ L → l.id ∈ idsOf fs0) (hok : pendingCount (loopQ W n fs0 []).1 = 0) :
+    attrAfter L (loopQ W n fs0 []).2.reverse = L := by
+  obtain ⟨keep, hkeep, heq⟩ := C09_query_list_result W fs0 hnd n hn L hpos hid
+  rw [heq]
+  refine List.filter_eq_self.2 ?_
+  intro l hl
+  exact (hkeep l).2 ((C09_query_success_iff W fs0 hnd n hn).1 hok l.id (hsub l hl))
+
+/-! non-vacuity: two files, the main file waits (query) for the imported one, whose reference
+waits (query) for a reference of its own file — three rounds; a list attribute of which one
+reference waits for itself, and a reference waiting for the list by a query -/
+
+def exW3 : Ref → List Wait
+  | 0 => [.qry 1 1 (some 0)] | 1 => [.qry 1 2 (some 0)] | _ => []
+
+example : loopQ exW3 4 [[⟨0, 0, 0⟩], [⟨1, 1, 0⟩, ⟨2, 2, 0⟩]] [] = ([[], []], [0, 1, 2]) := by decide
+example : (idsOf [[⟨0, 0, 0⟩], [⟨1, 1, 0⟩, ⟨2, 2, 0⟩]]).Nodup ∧
+    pendingCount [[⟨0, 0, 0⟩], [⟨1, 1, 0⟩, ⟨2, 2, 0⟩]] < 4 := by decide
+
+def exW4 : Ref → List Wait
+  | 1 => [.val 1] | 2 => [.qry 0 0 (some 0)] | _ => []
+
+example : loopQ exW4 4 [[⟨0, 0, 0⟩, ⟨1, 0, 0⟩, ⟨2, 1, 0⟩]] [] = ([[⟨1, 0, 0⟩, ⟨2, 1, 0⟩]], [0]) := by decide
+/-- the same conditions read from the model (`val`) let reference 2 resolve in the first pass,
+the query lets it wait for the whole list -/
+example : (specP exW4 [[⟨0, 0, 0⟩, ⟨1, 0, 0⟩, ⟨2, 1, 0⟩]]).ready [0] 2 = false := by decide
 
 /-! ## non-vacuity: a concrete provider with a chain, a cycle and a dead reference -/
 
